@@ -158,6 +158,11 @@ def scanSQ : SQSt → Str → Str → PRes Str
     else if c == '\\' then scanSQ .b rest ('\\' :: acc)
     else scanSQ .n rest (c :: '\\' :: acc)
 
+/-- `peekNotSpace`: the first non-space rune and what follows it; `none` at eof or once a newline was crossed -/
+def skipSpacesNL : Str → Option (Char × Str)
+  | [] => none
+  | c :: rest => if isSpace c then (if c == '\n' then none else skipSpacesNL rest) else some (c, rest)
+
 inductive UQSt where
   | normal
   | dash                  -- key mode: a `-` was peeked, the next rune decides
@@ -181,15 +186,24 @@ def uqRaw (inKey : Bool) (c : Char) (rest acc : Str) : UQStep :=
   else if c == '\\' then .next .esc acc
   else .next .normal (c :: acc)
 
-def uqNormal (inKey : Bool) (c : Char) (rest acc : Str) : UQStep :=
-  if uqStopTop.contains c then .done acc (c :: rest)
+/-- `p.inEdgeGroup && r == ')'`: the parenthesis ends the string when, after it, the line ends or one of
+    `\n # { } [ ] : .` follows (`peekNotSpace`) -/
+def closeParenStops (rest : Str) : Bool :=
+  match skipSpacesNL rest with
+  | none => true
+  | some (r2, _) => ['\n', '#', '{', '}', '[', ']', ':', '.'].contains r2
+
+def uqNormal (inKey inEdge : Bool) (c : Char) (rest acc : Str) : UQStep :=
+  if inEdge && c == ')' then
+    (if closeParenStops rest then .done acc (c :: rest) else .next .normal (c :: acc))
+  else if uqStopTop.contains c then .done acc (c :: rest)
   else if inKey && uqStopKey.contains c then .done acc (c :: rest)
   else if inKey && c == '-' then .next .dash acc
   else uqRaw inKey c rest acc
 
-def uqStep (inKey : Bool) (st : UQSt) (c : Char) (rest acc : Str) : UQStep :=
+def uqStep (inKey inEdge : Bool) (st : UQSt) (c : Char) (rest acc : Str) : UQStep :=
   match st with
-  | .normal => uqNormal inKey c rest acc
+  | .normal => uqNormal inKey inEdge c rest acc
   | .dash =>
     if uqStopTop.contains c then .done ('-' :: acc) (c :: rest)
     else if c == '-' || c == '>' || c == '*' then .done acc ('-' :: c :: rest)
@@ -197,10 +211,10 @@ def uqStep (inKey : Bool) (st : UQSt) (c : Char) (rest acc : Str) : UQStep :=
   | .esc => if c == '\n' then .next (.skip rest) acc else .next .normal (decodeEscape c :: acc)
   | .skip start =>
     if isSpace c then (if c == '\n' then .done acc start else .next (.skip start) acc)
-    else uqNormal inKey c rest acc
+    else uqNormal inKey inEdge c rest acc
 
 /-- the loop of `parseUnquotedString` (not in an edge group); answers the reversed accumulator -/
-def scanUQ (inKey : Bool) : UQSt → Str → Str → PRes Str
+def scanUQ (inKey inEdge : Bool) : UQSt → Str → Str → PRes Str
   | st, [], acc =>
     match st with
     | .normal => .ok acc []
@@ -208,11 +222,11 @@ def scanUQ (inKey : Bool) : UQSt → Str → Str → PRes Str
     | .esc => .err
     | .skip start => .ok acc start
   | st, c :: rest, acc =>
-    match uqStep inKey st c rest acc with
+    match uqStep inKey inEdge st c rest acc with
     | .done a r => .ok a r
     | .err => .err
     | .unsup => .unsupported
-    | .next st' acc' => scanUQ inKey st' rest acc'
+    | .next st' acc' => scanUQ inKey inEdge st' rest acc'
 
 def startsWith (p : Str) : Str → Bool
   | s => p.isPrefixOf s
@@ -225,22 +239,17 @@ inductive StrRes where
   deriving Repr, DecidableEq
 
 /-- `parseUnquotedString`: the `...@` test, the loop, `TrimRightFunc(…, unicode.IsSpace)`, nil when empty -/
-def parseUnquoted (inKey : Bool) (inp : Str) : StrRes :=
+def parseUnquoted (inKey inEdge : Bool) (inp : Str) : StrRes :=
   if startsWith ['.', '.', '.', '@'] inp then .err
   else
-    match scanUQ inKey .normal inp [] with
+    match scanUQ inKey inEdge .normal inp [] with
     | .err => .err
     | .unsupported => .unsupported
     | .ok acc rest =>
       let v := (acc.dropWhile isSpace).reverse
       if v.isEmpty then .nostring else .seg .unq v rest
 
-/-- `peekNotSpace`: the first non-space rune and what follows it; `none` at eof or once a newline was crossed -/
-def skipSpacesNL : Str → Option (Char × Str)
-  | [] => none
-  | c :: rest => if isSpace c then (if c == '\n' then none else skipSpacesNL rest) else some (c, rest)
-
-def parseString (inKey : Bool) (inp : Str) : StrRes :=
+def parseString (inKey inEdge : Bool) (inp : Str) : StrRes :=
   match skipSpacesNL inp with
   | none => .nostring
   | some (c, rest) =>
@@ -255,7 +264,7 @@ def parseString (inKey : Bool) (inp : Str) : StrRes :=
       | .err => .err
       | .unsupported => .unsupported
     else if c == '|' then .unsupported
-    else parseUnquoted inKey (c :: rest)
+    else parseUnquoted inKey inEdge (c :: rest)
 
 /-! ## ParseKey -/
 
@@ -298,13 +307,13 @@ def finishKey (path : List Seg) (rest : Str) : KeyRes :=
   else if path.any (fun g => utf8LenStr g.val > maxKeyLen) then .err
   else .ok path rest
 
-def parseKeyLoop : Nat → Str → List Seg → KeyRes
+def parseKeyLoop (inEdge : Bool) : Nat → Str → List Seg → KeyRes
   | 0, _, _ => .unsupported
   | n + 1, inp, path =>
     match keyLook inp with
     | .ret => finishKey path inp
     | .go =>
-      match parseString true inp with
+      match parseString true inEdge inp with
       | .nostring => finishKey path inp
       | .err => .err
       | .unsupported => .unsupported
@@ -313,10 +322,10 @@ def parseKeyLoop : Nat → Str → List Seg → KeyRes
         else
           match afterSeg rest with
           | none => finishKey (path ++ [⟨k, v⟩]) rest
-          | some rest' => parseKeyLoop n rest' (path ++ [⟨k, v⟩])
+          | some rest' => parseKeyLoop inEdge n rest' (path ++ [⟨k, v⟩])
 
 /-- `d2parser.ParseKey` -/
-def parseKey (inp : Str) : KeyRes := parseKeyLoop (inp.length + 1) inp []
+def parseKey (inp : Str) : KeyRes := parseKeyLoop false (inp.length + 1) inp []
 
 /-! ## big.Rat.SetString as a decidable numeral grammar
 
@@ -503,7 +512,7 @@ def parseValue (isNum : Str → Bool) (inp : Str) : ValRes :=
   | some (c, rest) =>
     if c == '[' || c == '{' || c == '@' then .unsupported
     else
-      match parseString false (c :: rest) with
+      match parseString false false (c :: rest) with
       | .nostring => .empty
       | .err => .err
       | .unsupported => .unsupported
